@@ -422,15 +422,31 @@ def fam_all_local(rng, n, tag="local"):
     return out
 
 def fam_silent_spectator(rng, n, tag="silent"):
-    """a spectator that stops acknowledging (it is killed): the host must drop it, not buffer for it"""
+    """a spectator that stops acknowledging (it is killed): the host must drop it, not buffer for it.
+    The remote player ticks in bursts, so the host's confirmed frame jumps by several frames per call
+    (the broadcast loop then calls send_input several times between two polls)."""
     out = []
     for i in range(n):
-        s = Scen("%s_%d" % (tag, i), players=2, window=rng.choice([0, 2, 8]), lat=10, seed=rng.randrange(1 << 30), inputrun=2, timeout=rng.choice([2000, 20000]), notify=500)
+        s = Scen("%s_%d" % (tag, i), players=2, window=rng.choice([0, 2, 8, 12]), lat=10, seed=rng.randrange(1 << 30), inputrun=2, timeout=rng.choice([2000, 20000]), notify=500)
         s.p2p(1, [0], nodrain=rng.randrange(2)); s.p2p(2, [1]); s.spec(9, 1, 2)
         t_die = rng.randrange(500, 2000)
-        for p, o in ((1, 0), (2, 5)):
-            s.ticks(p, o, 9000, 16)
+        s.ticks(1, 0, 9000, 16)
+        burst = rng.choice([0, 100, 200])
+        skips = [(a, a + burst) for a in range(300, 9000, 2 * burst)] if burst else []
+        s.ticks(2, 5, 9000, rng.choice([8, 16]), skip=skips)
         s.ticks(9, 7, t_die, 16)
         s.at(t_die, "kill", 9)
+        out.append(s)
+    return out
+
+def fam_event_flood(rng, n, tag="flood"):
+    """never-drained sessions that receive many events: diverging games with desync detection at a
+    short interval (one DesyncDetected per report), a leading peer (WaitRecommendation), silences"""
+    out = []
+    for i in range(n):
+        s = Scen("%s_%d" % (tag, i), players=2, window=rng.choice([2, 8]), lat=rng.choice([5, 20]), seed=rng.randrange(1 << 30), desync=rng.choice([1, 1, 2]), inputrun=2)
+        s.p2p(1, [0], nodrain=1); s.p2p(2, [1], nodrain=rng.randrange(2))
+        s.ticks(1, 0, 8000, rng.choice([12, 16])); s.ticks(2, 5, 8000, 16)
+        s.at(1, "diverge", 2, rng.randrange(3, 40))
         out.append(s)
     return out
